@@ -36,6 +36,10 @@ pub enum Case {
     /// on the reader's side (`reader_closes`) or on the writer's: the reader must never see a
     /// clean end-of-stream - end-of-stream means the sender finished
     Unfinished { pre: usize, reader_closes: bool },
+    /// while the acceptor is not accepting, the opener opens `n` more streams of the plan's kind,
+    /// writes a few bytes on each and resets them with codes derived from the plan's code; only
+    /// then does the acceptor accept: every one of them is handed out and reads Reset(its code)
+    ResetWhileQueued { n: usize, code: u64 },
 }
 
 #[derive(Serialize, Deserialize, Clone, Debug)]
@@ -71,7 +75,8 @@ pub fn gen_plan(seed: u64, index: usize, faulty: bool) -> Plan {
     }
     let bidi = rng.coin();
     let code = if rng.chance_pm(700) { CODES[index % CODES.len()] } else { rng.range(0, (1 << 62) - 1) };
-    let case = match rng.below(if faulty { 3 } else { 6 }) {
+    let case = match rng.below(if faulty { 3 } else { 7 }) {
+        6 => Case::ResetWhileQueued { n: *rng.pick(&[1usize, 2, 3, 5, 6, 9]), code },
         5 => Case::Unfinished { pre: *rng.pick(&[0usize, 1, 100, 5000]), reader_closes: rng.chance_pm(700) },
         0 => Case::Reset { pre: *rng.pick(&[0usize, 0, 1, 100, 5000, 50_000]), finish_first: rng.chance_pm(300), settle_before_reset: rng.coin(), code },
         1 => Case::Stop { after: *rng.pick(&[0usize, 0, 1, 100, 3000]), first_part: *rng.pick(&[1usize, 100, 3000, 20_000]), second_part: *rng.pick(&[1usize, 100, 5000]), code },
@@ -156,7 +161,7 @@ pub fn execute(plan: &Plan, trace: bool) -> Exec {
         let (cconn, sconn) = harness::establish(&pair, &harness::default_url()).await?;
         let (opener, acceptor) = if plan.opener_is_client { (cconn.clone(), sconn.clone()) } else { (sconn.clone(), cconn.clone()) };
         // open the stream and get the (writer, reader) pair of the direction under test
-        let (mut writer, mut reader, _keep): (SendStream, RecvStream, Vec<Box<dyn std::any::Any + Send>>);
+        let (mut writer, mut reader, mut _keep): (SendStream, RecvStream, Vec<Box<dyn std::any::Any + Send>>);
         if plan.bidi {
             let (os, or) = opener.open_bi().await.map_err(|e| format!("{e:?}"))?.await.map_err(|e| format!("{e:?}"))?;
             let (as_, ar) = tokio::time::timeout(Duration::from_secs(60), acceptor.accept_bi()).await.map_err(|_| "accept_bi timeout")?.map_err(|e| format!("{e:?}"))?;
@@ -274,6 +279,78 @@ pub fn execute(plan: &Plan, trace: bool) -> Exec {
                         Err(_) => obs.lock().unwrap().notes.push("write#3 blocked".into()),
                     }
                 }
+            }
+            Case::ResetWhileQueued { n, code } => {
+                let codes: Vec<u64> = (0..n).map(|i| (code ^ ((i as u64) * 0x9e37)) & ((1u64 << 62) - 1)).collect();
+                let mut held = Vec::new();
+                let mut ids = Vec::new();
+                for c in &codes {
+                    let mut ws = if plan.bidi {
+                        let (w, r) = opener.open_bi().await.map_err(|e| format!("{e:?}"))?.await.map_err(|e| format!("{e:?}"))?;
+                        held.push(Box::new(r) as Box<dyn std::any::Any + Send>);
+                        w
+                    } else {
+                        opener.open_uni().await.map_err(|e| format!("{e:?}"))?.await.map_err(|e| format!("{e:?}"))?
+                    };
+                    let _ = ws.write_all(format!("queued-{c}").as_bytes()).await;
+                    ids.push(ws.id().into_u64());
+                    held.push(Box::new(ws));
+                    // the stream (and its preamble) reaches the peer before it is reset
+                    net.quiesce(Duration::from_millis(20), Duration::from_secs(5)).await;
+                }
+                // reset them all, oldest first, then let the resets arrive
+                let mut writers: Vec<SendStream> = Vec::new();
+                for h in held.drain(..) {
+                    match h.downcast::<SendStream>() {
+                        Ok(w) => writers.push(*w),
+                        Err(other) => _keep.push(other),
+                    }
+                }
+                for (w, c) in writers.iter_mut().zip(&codes) {
+                    let _ = w.reset(VarInt::try_from_u64(*c).unwrap());
+                }
+                net.quiesce(Duration::from_millis(50), Duration::from_secs(10)).await;
+                tokio::time::sleep(Duration::from_millis(200)).await;
+                for _ in 0..n {
+                    let mut r = if plan.bidi {
+                        match tokio::time::timeout(Duration::from_secs(30), acceptor.accept_bi()).await {
+                            Ok(Ok((s, r))) => {
+                                _keep.push(Box::new(s));
+                                r
+                            }
+                            other => {
+                                obs.lock().unwrap().notes.push(format!("queued-accept-failed: {:?}", other.map(|x| x.map(|_| ()))));
+                                break;
+                            }
+                        }
+                    } else {
+                        match tokio::time::timeout(Duration::from_secs(30), acceptor.accept_uni()).await {
+                            Ok(Ok(r)) => r,
+                            other => {
+                                obs.lock().unwrap().notes.push(format!("queued-accept-failed: {:?}", other.map(|x| x.map(|_| ()))));
+                                break;
+                            }
+                        }
+                    };
+                    let id = r.id().into_u64();
+                    let mut buf = [0u8; 64];
+                    let end = loop {
+                        match tokio::time::timeout(Duration::from_secs(30), r.read(&mut buf)).await {
+                            Ok(Ok(Some(_))) => continue,
+                            Ok(Ok(None)) => break "end-of-stream".to_string(),
+                            Ok(Err(StreamReadError::Reset(c))) => break format!("reset:{}", c.into_inner()),
+                            Ok(Err(e)) => break format!("{e:?}"),
+                            Err(_) => break "read pending 30 s".to_string(),
+                        }
+                    };
+                    obs.lock().unwrap().notes.push(format!("queued-result id={id} {end}"));
+                }
+                let mut o = obs.lock().unwrap();
+                for (id, c) in ids.iter().zip(&codes) {
+                    o.notes.push(format!("queued-sent id={id} reset:{c}"));
+                }
+                drop(o);
+                _keep.push(Box::new(writers));
             }
             Case::Unfinished { pre, reader_closes } => {
                 let data = pattern(plan.seed, pre);
@@ -486,6 +563,26 @@ pub fn execute(plan: &Plan, trace: bool) -> Exec {
             ex.probe("stop_seen", 1);
             ex.fault("stream_stopped_mid_transfer", 1);
         }
+        Case::ResetWhileQueued { n, .. } => {
+            if let Some(f) = o.notes.iter().find(|x| x.starts_with("queued-accept-failed")) {
+                let got = o.notes.iter().filter(|x| x.starts_with("queued-result")).count();
+                ex.violation("C06/reset-stream-never-handed-out", format!("{role}: {n} streams were reset while waiting to be accepted; only {got} were returned by accept ({f})"));
+                return ex;
+            }
+            for sent in o.notes.iter().filter(|x| x.starts_with("queued-sent ")) {
+                let mut it = sent.split(' ');
+                let (_, id, want) = (it.next(), it.next().unwrap_or(""), it.next().unwrap_or(""));
+                let got = o.notes.iter().find(|x| x.starts_with(&format!("queued-result {id} ")));
+                match got {
+                    Some(g) if g.ends_with(&format!(" {want}")) => {}
+                    other => {
+                        ex.violation("C06/reset-code", format!("{role}: stream {id} was reset with {want} before it was accepted; the acceptor's read ended with {other:?}"));
+                        return ex;
+                    }
+                }
+            }
+            ex.fault("stream_reset_before_accept", *n as u64);
+        }
         Case::Unfinished { pre, reader_closes } => {
             let data = pattern(plan.seed, *pre);
             if !data.starts_with(&o.reader_bytes) {
@@ -585,7 +682,7 @@ pub fn def() -> PropertyDef {
     PropertyDef {
         id: "C06",
         scenarios: vec![Box::new(Typed(C06E2E { faulty: false })), Box::new(Typed(C06E2E { faulty: true }))],
-        rule: "Each run: real client and server, one stream in a generated role (client/server-opened x uni/bidi x direction), codes cycling through the boundaries of every varint length (0, 63, 64, 16383, 16384, 2^30-1, 2^30, 2^62-2, 2^62-1) and random 62-bit values, one of four histories: (reset) write 0..50 kB, optionally begin finishing, optionally let the network settle, reset(c) — the reader must see a prefix of the written bytes and then Reset(c), or, only if finishing began first, possibly everything and end-of-stream; (stop) the reader reads 0..3000 bytes and stops with c while the writer writes — every writer error must be Stopped(c), and once the stop has certainly arrived a further write, stopped(), finish(), stopped() again, another write and - a few round trips later - stopped(), finish() and write once more must all report Stopped(c); (finish) all bytes then end-of-stream, finish Ok, stopped() afterwards = Closed; (unfinished, clean batch only) the writer writes 0..5000 bytes and never finishes, then the connection is closed on the reader's or on the writer's side: the reader - in a pending read and in a later one - must get an error, never a clean end-of-stream; (finish under partition, clean batch only) with the data or the acknowledgement direction blocked finish() must still be pending after 10 s simulated and complete Ok after the heal - also when the FIN had already been queued by an earlier finish() future that was dropped by a timeout, or by tokio's AsyncWriteExt::shutdown. Fault batch: loss / duplication / reordering. Non-trivial = the history ran to its observation point (and a fault fired in the fault batch); distinct = distinct plan hashes.",
+        rule: "Each run: real client and server, one stream in a generated role (client/server-opened x uni/bidi x direction), codes cycling through the boundaries of every varint length (0, 63, 64, 16383, 16384, 2^30-1, 2^30, 2^62-2, 2^62-1) and random 62-bit values, one of four histories: (reset) write 0..50 kB, optionally begin finishing, optionally let the network settle, reset(c) — the reader must see a prefix of the written bytes and then Reset(c), or, only if finishing began first, possibly everything and end-of-stream; (stop) the reader reads 0..3000 bytes and stops with c while the writer writes — every writer error must be Stopped(c), and once the stop has certainly arrived a further write, stopped(), finish(), stopped() again, another write and - a few round trips later - stopped(), finish() and write once more must all report Stopped(c); (finish) all bytes then end-of-stream, finish Ok, stopped() afterwards = Closed; (reset while queued, clean batch only) 1-9 further streams are opened, written to and reset with distinct codes while nobody accepts; each must afterwards be returned by accept and read Reset(its code); (unfinished, clean batch only) the writer writes 0..5000 bytes and never finishes, then the connection is closed on the reader's or on the writer's side: the reader - in a pending read and in a later one - must get an error, never a clean end-of-stream; (finish under partition, clean batch only) with the data or the acknowledgement direction blocked finish() must still be pending after 10 s simulated and complete Ok after the heal - also when the FIN had already been queued by an earlier finish() future that was dropped by a timeout, or by tokio's AsyncWriteExt::shutdown. Fault batch: loss / duplication / reordering. Non-trivial = the history ran to its observation point (and a fault fired in the fault batch); distinct = distinct plan hashes.",
         assumptions: vec![
             "after stop the model allows every outcome QUIC allows for writes racing the signal; only writes issued after network quiescence are required to fail",
             "quinn/rustls/tokio executed for real but trusted; current-thread runtime",
